@@ -82,7 +82,7 @@ def check_sets(ctx, clause):
     for e, f in set_sources(ctx):
         n += 1
         esc = order_escapes(ctx, e, f)
-        key = "R-DET|set|%s|%s" % (f.short, norm(e)[:50])
+        key = "R-DET|set|%s|%s" % (f.short, f.key(e)[:50])
         if esc:
             ue, uf, how = esc[0]
             reach = ctx.reachable(f) and any(ctx.reachable(x[1]) for x in esc)
